@@ -4,9 +4,11 @@ src/encode/bc.rs `BC7_UNORM`).  Every f32 result (endpoint fit, `Quantization::p
 the error estimates of `get_best`/`get_best_2`, the errors compared by `pick_best_of_directly`) is a PARAMETER of the
 definitions below, never computed: the theorems hold for whatever the float code returns.
 
-These definitions are control-flow transcriptions that the differential tie does not reach (the tie of C13 compares
-emitted blocks, which depend on the float search); they are backed by the oracle clause `opaque-lost` and the
-self-test M6 (notes/C13.md).
+The definitions (`bc7ModesTried`, `possiblePBits`, `pickBestStates`, `pickBestOfDirectly`, `pSwap`, `singleAlpha`, …) live
+in the model file `Enc13.lean` and are evaluated by the driver on every run: `Enc13.bc7Rule` turns them into a constraint
+on the header fields of the emitted block (mode, rotation, p-bits, alpha endpoint fields), which the tie compares with the
+fields read back from what `dds::encode` emitted (notes/C13.md, "Tie").  They are also backed by the oracle clause
+`opaque-lost` and the self-tests M6, M10–M15.
 
 What is and is not discrete, for a fully opaque, not single-coloured block (the single-coloured one is
 `compress_single_color`, proved exact in `Proofs/Bc7Single.lean`):
